@@ -190,7 +190,7 @@ func genH2(t *tape.Tape, tier, mode string) any {
 	c.Server = genH2Endpoint(t, mode, false, n)
 	c.GoAway = t.Chance(1, 8)
 	c.Cap = []int{0, 1024, 4096, 32768}[t.Pick(5, 2, 2, 1)]
-	c.OutCh = []int{15, 0, 1, 3}[t.Pick(5, 1, 1, 1)]
+	c.OutCh = []int{15, 0, 1, 3}[t.Pick(3, 2, 2, 1)]
 	c.WOne = t.Pick(8, 1, 0)
 	c.WRand = t.Pick(2, 4, 2) * 2
 	return c
